@@ -1,34 +1,103 @@
 """C15 — assignment search is lossless: k-mer prefilters never change the answer."""
 import json
+import os
 
 PROPS = ["C15/Props.v"]
 META = dict(
-    text="Rocq theorems over an executable model of Encode4mer/Count4Mer/Common4Mer, the FindClosests scan (maxe, wordmin, bests; "
-         "obitag and obitag2) and the IndexSequence / Identify tables: the q-gram bound (d single-symbol edits leave at least "
-         "max(|s|,|t|)-3-4d shared 4-mers) is proved for all sequences; hence the scan pruned with the threshold |query|-3-4*maxe "
-         "returns exactly the references at minimal kernel distance, all ties included, and that distance, for every candidate order "
-         "sorted by shared 4-mers; every recorded index distance (and every lookup below the reference length) gives the LCA of the "
-         "taxa of all references within it; the taxon written by Identify is an ancestor-or-self of the taxon of every best match. "
-         "Every run ties the model to the real obitag.FindClosests / obitag2.FindClosests / obirefidx.IndexSequence / obitag.Identify "
-         "/ Common4Mer on random and adversarial databases x queries x random taxonomies (vm_compute on the same inputs) and checks "
-         "the real functions against a brute force over ALL references with the real kernels.",
+    text="Rocq theorems over an executable model of Encode4mer/Count4Mer/Common4Mer (base-code table and counter width REGENERATED from the build "
+         "on every run and re-proved: C15/Gen/Tables.v), the FindClosests scan (maxe, wordmin, bests; obitag and obitag2) and the IndexSequence / "
+         "Identify tables: the q-gram bound (d single-symbol edits leave at least max(|s|,|t|)-3-4d shared 4-mers) is proved for all sequences, and "
+         "for the WRAPPED uint16 counters the code really uses under the explicit guard 'no 4-mer occurs 2^16 times or more'; hence the scan pruned "
+         "with the threshold |query|-3-4*maxe returns exactly the references at minimal kernel distance, all ties included, and that distance, for "
+         "every candidate order sorted by shared 4-mers; whatever the counts / symbols / cap, the answer is the exact answer over a non-empty prefix "
+         "of the candidate order; obitag2 (cap `i > 1000`) is lossless IF AND ONLY IF no closest reference has rank > 1000; every recorded index "
+         "distance gives the LCA of the taxa of all references within it, IndexSequence always records distance 0, and the lookup loops of Identify "
+         "(modelled exactly, 'horrible hack' branch and spinning included) return for EVERY observed distance e the LCA of the references within "
+         "min(e, |reference|-1); the taxon written by Identify is an ancestor-or-self of the taxon of every best match. Every run ties the model to "
+         "the real obitag.FindClosests / obitag2.FindClosests / obirefidx.IndexSequence / obitag.Identify (lazily indexed AND pre-indexed database) "
+         "/ Common4Mer on random and adversarial databases x queries x random taxonomies (vm_compute on the same inputs, IUPAC cases included) and "
+         "checks the real functions against a brute force over ALL references with the real kernels; the returned idx are checked to pair with the "
+         "returned bests.",
     note="Trusted / assumed: the LCS kernels (Section variable: the reported alilen-lcs of two acgt sequences is witnessed by that many "
          "single-symbol edits — C15_alignment_is_edit_script shows any alignment gives one; the bounded kernel / D1Or0 answer d exactly "
          "when d <= bound — cross-checked by the harness on every pair, inconsistent cases are set aside and counted) = property C09; "
          "the LCA (Section variables anc/lca with reflexivity, transitivity, greatest-lower-bound law) = property C14. Guard acgt_only: "
-         "with IUPAC codes the kernels match ambiguous symbols while the 4-mer code maps them to 'a'; what the code does there is "
-         "counted under coverage.observations, never a violation. Guards of the model: reference set not empty (FindClosests indexes "
-         "o[0]); no sequence of exactly 3 bases (Encode4mer panics: defect owned by C08); fewer than 65536 4-mers per code (uint16 "
-         "counters); index lookups below the reference length (IndexSequence never records a distance >= |reference|). Not compared: "
-         "order of the ties, obitag_bestid / obitag_bestmatch (depend on the unstable sort). Known finding: obitag2.FindClosests "
-         "stops after 1001 candidates (C15_search2_cap_refuted; lossless up to 1001: C15_search2_lossless_upto_1001).")
+         "with IUPAC codes the kernels match ambiguous symbols while the 4-mer code maps them to 'a'; characterised (C15_iupac_bound: each "
+         "kernel-matched column of two different symbols costs at most four 4-mers; only completeness can fail, C15_iupac_refuted; "
+         "C15_search_prefix_exact still holds and is checked on those cases); what the code does there is counted under coverage.observations, "
+         "never a violation. Guard cells_exact (uint16 counters): beyond it the closest reference is pruned — known finding "
+         "search-4mer-count-wrap (C15_qgram_wrapped_refuted / C15_search_wrapped_refuted; exhibited on the real tables every run, on the real "
+         "FindClosests in the thorough tier only: one quadratic alignment of two 65 kb sequences). Guard: reference set not empty (FindClosests "
+         "indexes o[0]). Labelled observation lookup_beyond_reference_length: IndexSequence records no distance >= |reference| (`old := lseq`), "
+         "so for an observed distance e >= |best match| the assigned taxon is the LCA of the references within |best match|-1 only — more specific "
+         "than the LCA of all references within e, still an ancestor-or-self of every best match: neither clause of the property is violated "
+         "(C15_index_lookup_all_distances, C15_lookup_beyond_length_witness); not repaired (changing `old := lseq` changes the content of every "
+         "index written by obirefidx). Not compared: order of the ties, obitag_bestid / obitag_bestmatch (depend on the unstable sort). Known "
+         "finding: obitag2.FindClosests stops after 1001 candidates (C15_search2_cap_refuted; sharp: "
+         "C15_search2_lossless_iff_no_closest_beyond_rank_1000); obitag2 is reachable from the built command cmd/obitools/obitag2 (not documented, "
+         "not in the release notes); 'the search used by obitag' = obitag.FindClosests (no cap). obitag2's second pass (family databases, "
+         "BestConsensus with the reffamidx_in slot) is not modelled.")
 TRUSTED = [
-    "LCS kernels FastLCSScore / D1Or0 (property C09) are a Section variable: hypothesis kernel_edits (distance alilen-lcs of two acgt sequences = that many single-symbol edits) and Model.kern (bounded kernel / D1Or0 answer d iff d <= bound); the harness cross-checks bounded vs unbounded kernel and D1Or0 on every pair and sets inconsistent cases aside",
+    "LCS kernels FastLCSScore / D1Or0 (property C09) are a Section variable: hypothesis kernel_edits (distance alilen-lcs of two acgt sequences = that many single-symbol edits) and Model.kern (bounded kernel / D1Or0 answer d iff d <= bound; obitag2 uses byte equality for bound 0); the harness cross-checks bounded vs unbounded kernel and D1Or0 on every pair and sets inconsistent cases aside",
     "TaxNode.Path / LCA (property C14) are Section variables anc / lca with reflexivity, transitivity and anc x (lca a b) <-> anc x a /\\ anc x b; the correspondence uses an executable path/LCA over the parent table (Model.lca_exec) and the Python oracle its own LCA",
     "the candidate order (sort.Sort is not stable) is read back from the code (obiutils.IntOrder + Reverse on the observed counts) and validated by the model as a permutation sorted by decreasing shared 4-mers",
+    "C15/Gen/Tables.v (base-code table of Encode4mer through the hook obikmer.VerifC15SingleBaseCode, cell width of Table4mer through reflect) is rewritten from the current build before the Coq build; C15_base_code_table and C15_cells_are_uint16 are re-proved from it on every run",
+    "sequences long enough to wrap a counter (> 65538 bases) are outside what the kernels can align (16-bit path lengths, quadratic time): for them distances come from D1Or0 only",
 ]
 
 ACGT = "acgt"
+TABLES_V = os.path.join(os.path.dirname(os.path.dirname(os.path.dirname(os.path.abspath(__file__)))), "coq", "theories", "C15", "Gen", "Tables.v")
+
+
+# --------------------------------------------------------------------------- regenerated tables (pattern C07)
+def tables_source(t):
+    return ("(** GENERATED by tools/props/c15.py regen() from the CURRENT build (vh c15, case {\"kind\":\"tables\"}). Do not edit.\n"
+            "    base_code_tab : obikmer.__single_base_code__ (indexed by byte & 31);\n"
+            "    cell_bits     : width in bits of one obikmer.Table4mer counter; table_cells: number of counters. *)\n"
+            "From Coq Require Import NArith List.\nImport ListNotations.\n\n"
+            "Definition base_code_tab : list N := [%s]%%N.\n\nDefinition cell_bits : N := %d%%N.\n\nDefinition table_cells : N := %d%%N.\n"
+            % ("; ".join(str(int(x)) for x in t["base_code"]), int(t["cell_bits"]), int(t["cells"])))
+
+
+def regen(ctx):
+    """Called by check.py before the Coq build: rewrite C15/Gen/Tables.v from the current code (write-if-changed); the theorems
+    C15_base_code_table / C15_cells_are_uint16 (and everything that depends on base_code / cell_modulus) are then re-proved."""
+    vh, err = ctx.build_harness()
+    if vh is None:
+        raise RuntimeError("harness build failed: %s" % err)
+    obs, err = ctx.vh("c15", [dict(kind="tables")], timeout=60)
+    if obs is None or not obs or obs[0].get("kind") != "tables":
+        raise RuntimeError("vh c15 tables: %s" % (err or obs))
+    t = obs[0]
+    src = tables_source(t)
+    os.makedirs(os.path.dirname(TABLES_V), exist_ok=True)
+    old = open(TABLES_V).read() if os.path.exists(TABLES_V) else None
+    if old != src:
+        with open(TABLES_V, "w") as f:
+            f.write(src)
+        ctx.cov["tables_regenerated"] = "changed"
+    else:
+        ctx.cov["tables_regenerated"] = "unchanged"
+    ctx._c15_tables = t
+
+
+def table_failures(t):
+    """executable statement of C15_base_code_table / C15_cells_are_uint16 on the dumped tables"""
+    bad = []
+    tab = t["base_code"]
+    if len(tab) != 32:
+        bad.append("base-code table has %d entries, Encode4mer indexes it with byte & 31" % len(tab))
+    want = {"a": 0, "c": 1, "g": 2, "t": 3, "u": 3}
+    for ch, code in want.items():
+        for b in (ord(ch), ord(ch.upper())):
+            if (b & 31) >= len(tab) or tab[b & 31] != code:
+                bad.append("base code of %r is not %d" % (chr(b), code))
+    for i, c in enumerate(tab):
+        if c > 3 or (c != 0 and i not in (3, 7, 20, 21)):
+            bad.append("entry %d of the base-code table is %d" % (i, c))
+    if t["cell_bits"] != 16 or t["cells"] != 256:
+        bad.append("Table4mer is %d cells of %d bits (the guard of the search theorems is stated for 256 x uint16)" % (t["cells"], t["cell_bits"]))
+    return bad
 
 
 # --------------------------------------------------------------------------- generators
@@ -62,14 +131,12 @@ def rtaxo(rng, n):
 
 
 def fix_len(rng, s):
-    """sequences of exactly 3 bases make Encode4mer panic (defect owned by C08): never generate them"""
-    while len(s) == 3:
-        s += rng.choice(ACGT)
+    """(round 1 avoided sequences of exactly 3 bases: Encode4mer panicked, defect repaired under C08; they are generated now)"""
     return s
 
 
 def gen_case(rng, index=True, big=False):
-    kind = rng.choice(["family", "family", "family", "adversarial", "adversarial", "random", "lowcomplex", "lengths", "indexadv", "indexadv"])
+    kind = rng.choice(["family", "family", "family", "adversarial", "adversarial", "random", "lowcomplex", "lengths", "indexadv", "indexadv", "short"])
     L = rng.choice([4, 5, 6, 7, 8, 9, 11, 15, 20, 23, 24, 30, 40]) if rng.random() < 0.5 else rng.randrange(7, 45)
     nref = rng.randrange(1, 9) if not big else rng.randrange(8, 40)
     alpha = ACGT if kind != "lowcomplex" else rng.choice(["ac", "at", "acg", "a"])
@@ -117,6 +184,12 @@ def gen_case(rng, index=True, big=False):
             else:
                 refs.append(mutate(rng, base, rng.randrange(2, 4)))
         q = mutate(rng, base, rng.randrange(0, 3))
+    elif kind == "short":
+        # sequences around the 4-mer size (1..7 bases, exactly 3 included): no or very few 4-mers, thresholds at 0
+        q = rseq(rng, rng.randrange(2, 8))
+        refs = [rseq(rng, rng.randrange(1, 8)) if rng.random() < 0.6 else mutate(rng, q, rng.randrange(0, 3)) or "a" for _ in range(nref)]
+        if rng.random() < 0.5:
+            refs += [mutate(rng, q, 0), "".join(rng.sample(q, len(q)))]     # the query itself and a permutation of it (same length)
     elif kind == "random":
         q = seed
         refs = [rseq(rng, max(4, L + rng.randrange(-3, 4))) for _ in range(nref)]
@@ -137,8 +210,9 @@ def gen_case(rng, index=True, big=False):
         q = mutate(rng, rng.choice(seeds + refs), rng.choice([0, 1, 1, 2, 2, 3]), alpha)
         if rng.random() < 0.15 and refs:
             refs.append(refs[0])        # exact duplicate
-    refs = [fix_len(rng, r if len(r) >= 4 else r + rseq(rng, 4 - len(r))) for r in refs]
-    q = fix_len(rng, q if len(q) >= 4 else q + rseq(rng, 4 - len(q)))
+    if kind != "short":
+        refs = [r if len(r) >= 4 else r + rseq(rng, 4 - len(r)) for r in refs]
+        q = q if len(q) >= 4 else q + rseq(rng, 4 - len(q))
     rng.shuffle(refs)
     nt = rng.randrange(1, 10)
     taxo = rtaxo(rng, nt)
@@ -186,6 +260,28 @@ def gen_lowcomplexity_case(rng):
     return dict(q=q, refs=refs, taxids=[rng.randrange(1, 6) for _ in refs], taxo=taxo, index=True, tag="lowcomplexity")
 
 
+def gen_beyond_case(rng):
+    """best reference much shorter than the query (identity still >= 0.5): the observed distance reaches the reference length,
+    which IndexSequence never records; other references are extensions / variants of it under other taxa"""
+    L = rng.randrange(4, 9)
+    b = rseq(rng, L)
+    refs = [b]
+    for _ in range(rng.randrange(1, 5)):
+        k = rng.random()
+        if k < 0.5:
+            refs.append(b + rseq(rng, rng.randrange(L, 2 * L + 1)))
+        elif k < 0.7:
+            refs.append(rseq(rng, rng.randrange(L, 2 * L + 1)) + b)
+        else:
+            refs.append(mutate(rng, b, rng.randrange(0, 3)))
+    x = rseq(rng, rng.randrange(L, L + 3))
+    q = rng.choice([b + x, x + b, b[:L // 2] + x + b[L // 2:]])
+    refs = [fix_len(rng, r if len(r) >= 4 else r + rseq(rng, 4 - len(r))) for r in refs]
+    rng.shuffle(refs)
+    nt = rng.randrange(2, 7)
+    return dict(q=q, refs=refs, taxids=[rng.randrange(1, nt + 1) for _ in refs], taxo=rtaxo(rng, nt), index=True, tag="beyondlength")
+
+
 # minimised defect witnesses (always run first)
 CORPUS = [
     # FindClosests (fixed): ref 1 (one insertion, 9 bases, 5 shared 4-mers) is found first at distance 1; with the original
@@ -202,10 +298,22 @@ CORPUS = [
     # 4-mer counters: query with 258 a, a reference with 259 a (distance 1, 'aaaa' x 256) and one with two substitutions (distance 2)
     dict(q="cgtcatg" + "a" * 258 + "gtcagct", refs=["cgtcatg" + "a" * 259 + "gtcagct", "cgtgatg" + "a" * 258 + "gtcacct"], taxids=[2, 3],
          taxo=[[1, 1], [2, 1], [3, 1]], index=True, tag="corpus:boundary-4mer-count-256"),
+    # observed distance 4 = |gccg| (best match, taxon 4): index of gccg = {0: 4, 1: 3}; gccggaca (taxon 2, LCA with gccg = root) is at distance 4
+    # of gccg but no distance >= |gccg| is recorded: assigned 3 (labelled observation lookup_beyond_reference_length; C15_lookup_beyond_length_witness)
+    dict(q="tttggccg", refs=["gccggaca", "gccg", "gctcg", "gccggagtt"], taxids=[2, 4, 3, 2], taxo=[[1, 1], [2, 1], [3, 1], [4, 3], [5, 1], [6, 2]],
+         index=True, tag="corpus:lookup-beyond-length"),
+    # seed B of round 1 (dropped reset of bestidxs): the first-ranked candidate (query + tail) is not a closest reference
+    dict(q="acgtagctaggatccagtcatgca", refs=["acgtagctaggatccagtcatgcattgacca", "acgtagctacgatccagtgatgca"], taxids=[3, 2],
+         taxo=[[1, 1], [2, 1], [3, 1]], index=True, tag="corpus:idx-pairs-with-bests"),
     dict(q="acgt", refs=["acgt"], taxids=[1], taxo=[[1, 1]], index=True, tag="corpus:boundary"),
     dict(q="acgtacgtac", refs=["acgtacgtac", "acgtacgtac", "acgtacgtaa"], taxids=[3, 4, 2], taxo=[[1, 1], [2, 1], [3, 2], [4, 2]], index=True, tag="corpus:boundary"),
     dict(q="aaaaaaaa", refs=["aaaaaaa", "aaaaaaaaa", "aaaa", "cccccccc"], taxids=[2, 3, 1, 3], taxo=[[1, 1], [2, 1], [3, 2]], index=True, tag="corpus:boundary"),
     dict(q="ac", refs=["acgtt", "ca", "a"], taxids=[1, 2, 2], taxo=[[1, 1], [2, 1]], index=True, tag="corpus:boundary"),
+    # obitag2 `case 0` (byte equality once the best distance is 0): the identical reference is scanned first (rank 0), then a
+    # different reference of the same length that passes the prefilter (|q| <= 3: threshold 0; 8 bases: same 4-mer multiset)
+    dict(q="acg", refs=["tcg", "acg"], taxids=[2, 3], taxo=[[1, 1], [2, 1], [3, 1]], index=True, tag="corpus:boundary-best-0-then-same-length"),
+    dict(q="ac", refs=["ca", "aa", "ac"], taxids=[2, 3, 3], taxo=[[1, 1], [2, 1], [3, 1]], index=True, tag="corpus:boundary-best-0-then-same-length"),
+    dict(q="acg", refs=["acg", "ac", "acgt", "cgt", "tcg"], taxids=[2, 3, 1, 3, 2], taxo=[[1, 1], [2, 1], [3, 2]], index=True, tag="corpus:boundary-3-bases"),
 ]
 
 
@@ -256,6 +364,10 @@ def oracle(c, o):
         if fc["kind"] != "ok":
             bad.append((key, dict(what=name + (" does not return" if fc["kind"] == "timeout" else " panics"), got=fc)))
             continue
+        if not fc.get("pairok", True):
+            bad.append((key, dict(what=name + ": the returned indices do not pair with the returned best sequences (bests[i] must be references[idx[i]]: "
+                                  "Identify indexes references[idx[i]] and reads the index of bests[i])",
+                                  got=dict(idx=fc["idxs"], bests=fc.get("bestids")))))
         if sorted(fc["idxs"]) != best or fc["maxe"] != dmin or len(set(fc["idxs"])) != len(fc["idxs"]):
             bad.append((key, dict(what=name + " does not return the references at minimal distance (all ties) and that distance",
                                   got=dict(best=sorted(fc["idxs"]), distance=fc["maxe"]),
@@ -280,16 +392,17 @@ def oracle(c, o):
             # (a) every recorded distance maps to the LCA of the taxa of all references within that distance
             # (b) lookup "largest recorded distance <= e" gives the LCA of all references within e, for every e >= 0
             #     (distances beyond the reference length are never recorded: the code then answers the root... see Identify)
-            ok = idx == exp
+            ok = idx == exp and 0 in idx      # C15_index_has_distance_0: the reference itself is never pruned
             look = {}
-            # distances >= |reference| are never recorded by IndexSequence (`old := lseq`): the lookup clause is
-            # stated for observed distances below the reference length (see META note)
-            for e in range(0, len(c["refs"][i])):
+            # distances >= |reference| are never recorded by IndexSequence (`old := lseq`): for EVERY observed distance e the
+            # lookup answers the LCA of all references within min(e, |reference|-1) (C15_index_lookup_all_distances)
+            for e in range(0, max(len(c["refs"][i]), max(rd)) + 2):
                 ks = [k for k in idx if k <= e]
-                want = lca_all(parent, [tx[j] for j in range(n) if rd[j] <= e])
+                want = lca_all(parent, [tx[j] for j in range(n) if rd[j] <= min(e, len(c["refs"][i]) - 1)])
                 got = idx[max(ks)] if ks else None
                 look[e] = (got, want)
-                if got != want:
+                # (an index that also recorded distances >= |reference| would answer the LCA of all references within e: accepted too)
+                if got != want and got != lca_all(parent, [tx[j] for j in range(n) if rd[j] <= e]):
                     ok = False
             if not ok:
                 bad.append(("index", dict(what="IndexSequence: a recorded distance is not mapped to the LCA of the taxa of all references within it",
@@ -307,12 +420,12 @@ def oracle(c, o):
             ident = max(o["qd"][j][0] / o["qd"][j][1] for j in best)
             if ident < 0.5:
                 want = 1
-            elif all(dmin < len(c["refs"][b]) for b in best):
-                want = lca_all(parent, [tx[j] for b in best for j in range(n) if o["rd"][b][j] <= dmin])
             else:
-                want = None       # observed distance >= |reference|: outside the lookup statement
-            if want is not None and t != want:
-                bad.append(("identify", dict(what="assigned taxon is not the LCA of the taxa of all references within the observed distance of the best matches",
+                # for every observed distance (C15_index_lookup_all_distances): references within min(distance, |best match| - 1)
+                want = lca_all(parent, [tx[j] for b in best for j in range(n) if o["rd"][b][j] <= min(dmin, len(c["refs"][b]) - 1)])
+            want_all = want if ident < 0.5 else lca_all(parent, [tx[j] for b in best for j in range(n) if o["rd"][b][j] <= dmin])
+            if t != want and t != want_all:
+                bad.append(("identify", dict(what="assigned taxon is not the LCA of the taxa of all references within min(observed distance, |best match| - 1) of the best matches",
                                              assigned=t, expected=want, best=best, distance=dmin)))
             if t not in parent or not all(is_anc(parent, t, tx[j]) for j in best):
                 bad.append(("identify", dict(what="assigned taxon is not an ancestor-or-self of the taxon of every best match",
@@ -372,6 +485,7 @@ def evaluate(ctx, cases, broken, label, report=True, corr=True):
     obs = ctx.vh_robust("c15", [strip(c) for c in cases], timeout=240 if ctx.quick else 1200, one_timeout=20)
     stats = dict(kernel_inconsistent=0, outside_guard=0, outside_guard_differs=0, oracle_failures=0)
     usable = []
+    outside = []
     nviol = 0
     for i, (c, o) in enumerate(zip(cases, obs)):
         if o.get("kind") != "ok":
@@ -380,11 +494,32 @@ def evaluate(ctx, cases, broken, label, report=True, corr=True):
             stats["oracle_failures"] += 1
             continue
         if not acgt_only(c):
-            # labelled observation, outside the guard acgt_only: not a violation
+            # labelled observation, outside the guard acgt_only: completeness can fail (never a violation); what is PROVED without the
+            # guard is checked: C15_search_prefix_exact (every reported best is at the reported distance, which is never below the true
+            # minimum) and C15_iupac_bound (shared 4-mers >= max(len) - 3 - 4 (d + amb), amb <= number of non-acgt symbols of the pair)
             stats["outside_guard"] += 1
             if any(k[0] in ("fc", "fc2") for k in oracle(c, o)):
                 stats["outside_guard_differs"] += 1
                 stats.setdefault("outside_guard_example", dict(case=strip(c), best=o["fc"], distances=[a - l for l, a in o["qd"]], shared_4mers=o["cw"]))
+            dd = [a - l for l, a in o["qd"]]
+            unsound = []
+            for key in ("fc", "fc2"):
+                fc = o[key]
+                if fc["kind"] != "ok" or fc["maxe"] < min(dd) or any(dd[j] != fc["maxe"] for j in fc["idxs"]) or not fc.get("pairok", True) \
+                        or len(fc["idxs"]) != len(set(fc["idxs"])):
+                    unsound.append(dict(where=key, got=fc, distances=dd))
+            namb = lambda x: sum(1 for ch in x if ch not in ACGT)
+            for j, r in enumerate(c["refs"]):
+                if o["cw"][j] < max(len(c["q"]), len(r)) - 3 - 4 * (dd[j] + namb(c["q"]) + namb(r)):
+                    unsound.append(dict(where="iupac-bound", ref=j, shared=o["cw"][j], distance=dd[j], ambiguous_symbols=namb(c["q"]) + namb(r)))
+            if unsound and o["kok"]:
+                stats["oracle_failures"] += 1
+                if report:
+                    ctx.violation("%s_outside_guard_%d" % (label, i), dict(property="C15", kind="direct-oracle", case=strip(c), tag=c.get("tag"),
+                                  what="outside acgt_only the scan must still be exact over a prefix of the candidate order (C15_search_prefix_exact) and obey C15_iupac_bound",
+                                  failures=unsound))
+            elif o["kok"]:
+                outside.append(i)
             continue
         if not o["kok"]:
             # the kernels disagree with each other on a pair: property C09's business; set the case aside
@@ -396,10 +531,24 @@ def evaluate(ctx, cases, broken, label, report=True, corr=True):
             if any(min(dd) >= len(c["refs"][b]) for b in range(len(dd)) if dd[b] == min(dd)):
                 # labelled observation: observed distance >= |best reference|: IndexSequence records no such distance
                 stats["lookup_beyond_reference_length"] = stats.get("lookup_beyond_reference_length", 0) + 1
-                stats.setdefault("lookup_beyond_example", dict(q=c["q"], refs=c["refs"], distance=min(dd), assigned=o.get("taxid")))
+                bb = [b for b in range(len(dd)) if dd[b] == min(dd)]
+                if max(o["qd"][j][0] / o["qd"][j][1] for j in bb) >= 0.5:
+                    par = {t: p for t, p in c["taxo"]}
+                    allw = lca_all(par, [c["taxids"][j] for b in bb for j in range(len(dd)) if o["rd"][b][j] <= min(dd)])
+                    if allw != o.get("taxid"):
+                        stats["lookup_beyond_more_specific"] = stats.get("lookup_beyond_more_specific", 0) + 1
+                        stats.setdefault("lookup_beyond_example", dict(q=c["q"], refs=c["refs"], taxids=c["taxids"], taxo=c["taxo"], distance=min(dd), assigned=o.get("taxid"),
+                                                                       lca_of_all_references_within_distance=allw))
         fails = oracle(c, o)
+        if c.get("tag") == "corpus:" + KNOWN_CAP and o["fc2"]["kind"] == "ok":
+            pb, pm = cap_prefix_answer(o)
+            if sorted(o["fc2"]["idxs"]) != pb or o["fc2"]["maxe"] != pm or not fails:
+                # the cap is not where the model (and the theorem) say it is
+                fails = fails + [("fc2", dict(what="obitag2.FindClosests: the answer is not the exact answer over the candidates of rank 0..1000 (the closest reference has rank %d)" % (len(c["refs"]) - 1),
+                                              got=dict(n_best=len(o["fc2"]["idxs"]), distance=o["fc2"]["maxe"]), expected=dict(n_best=len(pb), distance=pm))),
+                                 ("cap", dict(what="position of the scan cap"))]
         if fails and c.get("tag") == "corpus:" + KNOWN_CAP and all(k == "fc2" for k, _ in fails) and ctx.kf_match(KNOWN_CAP):
-            ctx.known(KNOWN_CAP, "obitag2.FindClosests gives up after 1001 candidates: with more references than that the closest one can be missed (witness: 1100 references sharing more 4-mers than the single reference at distance 1)")
+            ctx.known(KNOWN_CAP, "obitag2.FindClosests gives up after 1001 candidates: with more references than that the closest one can be missed (witness: 1001 references sharing more 4-mers than the single reference at distance 1, which has rank 1001; with 1000 such references it has rank 1000 and is found)")
             continue
         if fails:
             stats["oracle_failures"] += 1
@@ -414,7 +563,9 @@ def evaluate(ctx, cases, broken, label, report=True, corr=True):
     if corr and usable:
         big = [i for i in usable if len(cases[i]["refs"]) > 100]
         usable = [i for i in usable if i not in set(big)]
-        bad, err = ctx.correspond(label, IMPORTS, [case_term(cases[i], obs[i]) for i in usable], shard=40)
+        # outside-guard cases go through the correspondence too (the model does not depend on the guard), search part only
+        usable = usable + outside
+        bad, err = ctx.correspond(label, IMPORTS, [case_term(cases[i] if i not in set(outside) else dict(cases[i], index=False), obs[i]) for i in usable], shard=40 if ctx.quick else 20)
         if bad is None:
             broken.append(dict(kind="correspondence", detail=err))
         else:
@@ -439,6 +590,14 @@ def run(ctx, broken):
     cases += [gen_case(rng, index=(k % 4 == 0), big=True) for k in range(n_big)]
     cases += [gen_iupac_case(rng) for _ in range(n_amb)]
     cases += [gen_lowcomplexity_case(rng) for _ in range(4 if ctx.quick else 80)]
+    cases += [gen_beyond_case(rng) for _ in range(40 if ctx.quick else 800)]
+    tf = table_failures(ctx._c15_tables) if getattr(ctx, "_c15_tables", None) else ["tables not dumped (regen failed)"]
+    ctx.cov["regenerated_tables"] = dict(base_code=getattr(ctx, "_c15_tables", {}).get("base_code"), cell_bits=getattr(ctx, "_c15_tables", {}).get("cell_bits"),
+                                         failures=tf)
+    if tf:
+        ctx.violation("tables", dict(property="C15", kind="direct-oracle", what="base-code table of Encode4mer / Table4mer cell width", failures=tf,
+                                     tables=getattr(ctx, "_c15_tables", None)))
+    wrap_stats = run_wrap(ctx)
     obs, mism, stats = evaluate(ctx, cases, broken, "main")
     ctx.cov["evaluations"] = len(cases)
     ctx.cov["distinct_nontrivial"] = len({json.dumps(strip(c), sort_keys=True) for c, o in zip(cases, obs) if nontrivial(c, o)})
@@ -456,8 +615,14 @@ def run(ctx, broken):
         outside_guard_acgt_only=dict(cases=stats["outside_guard"], search_differs_from_brute_force=stats["outside_guard_differs"],
                                      example=stats.get("outside_guard_example"),
                                      note="IUPAC codes: the kernels match ambiguous symbols, the 4-mer code maps them to 'a'; reported, not a violation"),
-        lookup_beyond_reference_length=dict(cases=stats.get("lookup_beyond_reference_length", 0), example=stats.get("lookup_beyond_example"),
-                                            note="best distance >= length of a best reference: IndexSequence never records such a distance (old := lseq), Identify falls back to a smaller recorded one; outside the lookup statement (e < |reference|), reported only"),
+        lookup_beyond_reference_length=dict(cases=stats.get("lookup_beyond_reference_length", 0),
+                                            assigned_more_specific_than_lca_of_all_within_distance=stats.get("lookup_beyond_more_specific", 0),
+                                            example=stats.get("lookup_beyond_example"),
+                                            note="best distance e >= length of a best reference b: IndexSequence records no distance >= |b| (old := lseq), Identify answers the entry for |b|-1 "
+                                                 "= LCA of the references within |b|-1 of b (C15_index_lookup_all_distances, checked as an oracle on every case). When another reference lies "
+                                                 "within e but not within |b|-1 of b the assigned taxon is more specific than the LCA of all references within e; it is still an ancestor-or-self "
+                                                 "of every best match: neither clause of the property is violated (C15_lookup_beyond_length_witness). Reported, not a violation."),
+        counter_wrap=wrap_stats,
         kernel_inconsistent=dict(cases=stats["kernel_inconsistent"], example=stats.get("kernel_inconsistent_example"),
                                  note="bounded kernel / D1Or0 disagree with the unbounded kernel on some pair (property C09): case set aside"))
     ctx.samples = [dict(case=strip(c), best=o.get("fc"), taxid=o.get("taxid")) for c, o in list(zip(cases, obs))[:2] + list(zip(cases, obs))[60:63]]
@@ -474,20 +639,81 @@ def run(ctx, broken):
         ctx.cov["note"] = "model and implementation diverge on %d cases (violations reported by the direct oracle)" % len(mism)
 
 
+KNOWN_WRAP = "search-4mer-count-wrap"
+
+
+def run_wrap(ctx):
+    """uint16 cells of Table4mer. Control just inside the guard (a 4-mer occurring 65535 times: the q-gram bound must hold on the real
+    tables) and the witness beyond it (65536 occurrences: the cell wraps to 0). Distances are established by the real D1Or0 (linear); the
+    unbounded kernel is quadratic and packs path lengths in 16 bits, FindClosests itself is only run in the thorough tier (one alignment of
+    two 65 kb sequences, ~25 s)."""
+    inside = dict(kind="wrap", q="a" * 65537, refs=["a" * 65538, "c" + "a" * 65535 + "c"])
+    beyond = dict(kind="wrap", q="a" * 65538, refs=["a" * 65539, "c" + "a" * 65536 + "c"], full=not ctx.quick)
+    obs = ctx.vh_robust("c15", [inside, beyond], timeout=600, one_timeout=300)
+    st = dict(note="Table4mer cells are uint16: a 4-mer occurring 65536 times wraps to 0; inside the guard (65535 occurrences) the bound must hold, "
+                   "beyond it the known finding C15/" + KNOWN_WRAP + " is exhibited on the real tables (C15_qgram_wrapped_refuted, C15_search_wrapped_refuted)")
+    for name, c, o in (("inside_guard", inside, obs[0]), ("beyond_guard", beyond, obs[1])):
+        if o.get("kind") != "wrap":
+            ctx.violation("wrap_" + name + "_crash", dict(property="C15", kind="harness-crash", case=dict(kind="wrap", q_len=len(c["q"]), refs_len=[len(r) for r in c["refs"]]), implementation=o))
+            continue
+        fails = []
+        for i, r in enumerate(c["refs"]):
+            d = o["d1"][i]
+            if d >= 0 and o["cw"][i] < max(len(c["q"]), len(r)) - 3 - 4 * d:
+                fails.append(dict(ref=i, ref_len=len(r), distance_by_D1Or0=d, shared_4mers_by_Common4Mer=o["cw"][i], bound=max(len(c["q"]), len(r)) - 3 - 4 * d))
+        fc = o.get("fc")
+        lost = bool(fc) and fc.get("kind") == "ok" and 0 not in fc.get("idxs", [])
+        st[name] = dict(q_len=len(c["q"]), refs_len=[len(r) for r in c["refs"]], shared_4mers=o["cw"], self_shared_4mers=o["self"], d1or0=o["d1"],
+                        bound_failures=fails, find_closests=fc, closest_reference_lost=lost if fc else "not run (quick tier)")
+        if name == "inside_guard" and fails:
+            ctx.violation("wrap_inside_guard", dict(property="C15", kind="direct-oracle", what="q-gram bound fails on the real Count4Mer/Common4Mer although no 4-mer occurs 65536 times",
+                                                   case=dict(kind="wrap", q="a*%d" % len(c["q"]), refs=["a*65538", "c a*65535 c"]), failures=fails))
+        if name == "beyond_guard":
+            if fails or lost:
+                if ctx.kf_match(KNOWN_WRAP):
+                    ctx.known(KNOWN_WRAP, "a 4-mer occurring 65536 times wraps its uint16 cell to 0: query a^65538 and reference a^65539 (one insertion apart) share 0 4-mers by "
+                                          "Common4Mer, below the pruning threshold: FindClosests / IndexSequence never look at that reference")
+                else:
+                    ctx.violation("wrap_beyond_guard", dict(property="C15", kind="direct-oracle", what="4-mer counter wrap: closest reference pruned", failures=fails, find_closests=fc))
+    return st
+
+
 def corpus_cap(rng):
-    """known finding: obitag2.FindClosests never looks at candidates of rank > 1000"""
+    """obitag2.FindClosests never looks at candidates of rank > 1000 (C15_search2_lossless_iff_no_closest_beyond_rank_1000): the single
+    closest reference shares fewer 4-mers than all the others, so its rank is n-1: n = 1001 -> rank 1000, still found (plain oracle);
+    n = 1002 -> rank 1001, lost (known finding). In the lost cases the answer must be EXACTLY the brute-force answer over
+    the candidates of rank 0..1000 of the code's own order (checked in evaluate)."""
     r = __import__("random").Random(15)
     q = "acgtagctaggatcc"
-    refs = set()
-    while len(refs) < 1100:
-        refs.add(rseq(r, r.randrange(2, 4)) + q + rseq(r, r.randrange(2, 4)))
-    refs = sorted(refs)
-    refs.append(q[:7] + ("t" if q[7] != "t" else "g") + q[8:])      # one substitution: distance 1, shares 4 fewer 4-mers than all the others
-    return [dict(q=q, refs=refs, taxids=[1] * len(refs), taxo=[[1, 1]], index=False, tag="corpus:" + KNOWN_CAP)]
+    pool = set()
+    while len(pool) < 1001:
+        pool.add(rseq(r, r.randrange(2, 4)) + q + rseq(r, r.randrange(2, 4)))
+    pool = sorted(pool)
+    close = q[:7] + ("t" if q[7] != "t" else "g") + q[8:]      # one substitution: distance 1, shares 4 fewer 4-mers than all the others
+    out = []
+    for n, tag in ((1000, "corpus:cap-rank-1000-found"), (1001, "corpus:" + KNOWN_CAP)):
+        refs = pool[:n] + [close]
+        out.append(dict(q=q, refs=refs, taxids=[1] * len(refs), taxo=[[1, 1]], index=False, tag=tag))
+    return out
+
+
+def cap_prefix_answer(o):
+    """brute force over the candidates of rank 0..1000 in the order the code computed"""
+    d = [a - l for l, a in o["qd"]]
+    pre = o["order"][:1001]
+    m = min(d[i] for i in pre)
+    return sorted(i for i in pre if d[i] == m), m
 
 
 def replay(ctx, rp):
     c = rp.get("case") or rp.get("broken", [{}])[0].get("first_diverging_case")
+    if rp.get("tables") is not None or (c and c.get("kind") == "wrap"):
+        # regenerated tables / counter-width cases: dump the tables of the current build and re-run the two wrap cases
+        regen(ctx)
+        print("replay: tables of the current build:", json.dumps(ctx._c15_tables))
+        print("  table failures:", table_failures(ctx._c15_tables))
+        print("  counter cells:", json.dumps(run_wrap(ctx), default=str)[:3000])
+        return
     if not c:
         print("replay: no case in the replay file (proof obligation / build failure):", json.dumps(rp)[:2000])
         return
